@@ -187,12 +187,11 @@ AsBuiltAfter(hist, s, st) ==
 
 ---------------------------------------------------------------------------
 (* what a DB-API driver reads: [ok, mtext (j-th placeholder -> "#j"), refs (what the j-th placeholder refers to)] *)
-RECURSIVE LexQmark(_, _, _)
-LexQmark(t, p, j) ==
-    IF p > Len(t) THEN [ok |-> TRUE, mtext |-> <<>>, refs |-> <<>>]
-    ELSE IF t[p] = "?" THEN LET r == LexQmark(t, p + 1, j + 1)
-                            IN [ok |-> r.ok, mtext |-> <<Marker(j)>> \o r.mtext, refs |-> <<DigitsOf(j)>> \o r.refs]
-    ELSE LET r == LexQmark(t, p + 1, j) IN [ok |-> r.ok, mtext |-> <<t[p]>> \o r.mtext, refs |-> r.refs]
+LexQmark(t, p, j) ==           \* every `?` is the next positional argument (not recursive: whole translated queries pass here)
+    LET qs == { k \in 1 .. Len(t) : t[k] = "?" }
+        nth(k) == Cardinality({ i \in qs : i <= k })
+    IN [ok |-> TRUE, mtext |-> [k \in 1 .. Len(t) |-> IF t[k] = "?" THEN Marker(nth(k)) ELSE t[k]],
+        refs |-> [n \in 1 .. Cardinality(qs) |-> DigitsOf(n)]]
 
 LFail == [ok |-> FALSE, mtext |-> <<>>, refs |-> <<>>]
 RECURSIVE LexFormat(_, _, _)
@@ -242,6 +241,14 @@ FaithfulTo(i, st, text, hasargs) ==       \* i = Intended(s)
     LET d == DriverLex(st, text, hasargs)
     IN i.ok /\ d.ok /\ d.mtext = i.mtext /\ (hasargs <=> i.exprs # <<>>)
 Faithful(s, st, text, hasargs) == FaithfulTo(Intended(s), st, text, hasargs)
+
+(* a raw_sql() fragment inside a translated query: the driver's reading of the whole statement must contain the
+   fragment's intended text (the harness uses queries without other parameters, so the markers are numbered alike) *)
+Contains(big, small) == \E off \in 0 .. Len(big) - Len(small) : SubSeq(big, off + 1, off + Len(small)) = small
+EmbeddedFaithful(s, text, hasargs) ==
+    LET i == Intended(s)
+        d == DriverLex("qmark", text, hasargs)
+    IN i.ok /\ d.ok /\ Contains(d.mtext, i.mtext) /\ Len(d.refs) = Len(i.exprs)
 
 ---------------------------------------------------------------------------
 RECURSIVE Strings(_, _)
